@@ -18,7 +18,7 @@ SCOPE = {"quick": "behaviour grid exhaustive for stacks of 0..3 entries (kinds s
          "thorough": "behaviour grid exhaustive for stacks of 0..4 entries (kinds sampled); histories random"}
 ASSUMPTIONS = [
     "__context__/__traceback__ stitching is not compared",
-    "exits do not register further exits while the stack unwinds",
+    "exits that pop_all / push / callback on their own stack while it unwinds are modelled by Machines/ExitStackReentrant.lean (family reentrant)",
     "exception identity is compared through the injected id carried by the object (objects interned per run); odd ids are BaseException subclasses (cancellation-like)",
 ]
 # pushed exit callables / callbacks also in the awaitable-returning flavours that are NOT coroutine functions:
@@ -352,7 +352,8 @@ def observe(case):
 
 def model_request(case):
     if case["kind"] == "reentrant":
-        return None
+        # Machines/ExitStackReentrant.lean: both libraries' unwind loops over deques that exits may pop_all / push onto
+        return {"m": "exitstackre", "n": case["n"], "at": case["at"], "act": case["act"], "beh": case["beh"], "body": case["body"]}
     ents = {k: {"cb": v["k"] in CB_KINDS, "none": v["none"], "some": v["some"]}
             for k, v in case["entries"].items()}
     if case["kind"] == "unwind":
@@ -366,6 +367,16 @@ def judge(case, obs, model):
         if obs["impl"] != obs["std"]:
             issues.append(Issue("oracle", {"asyncstdlib": obs["impl"], "contextlib": obs["std"]},
                                 "differs-from-contextlib-when-an-exit-touches-its-stack:" + case["act"]))
+        if model is not None:
+            if "error" in model:
+                issues.append(Issue("A", model))
+            else:
+                if model["impl"] != obs["impl"]:
+                    issues.append(Issue("A", {"asyncstdlib": obs["impl"], "model": model["impl"]}))
+                if model["spec"] != obs["std"]:
+                    issues.append(Issue("B", {"contextlib": obs["std"], "spec": model["spec"]}))
+                if model["impl"] != model["spec"]:
+                    issues.append(Issue("MS", model))
         return issues
     impl = obs["impl"]
     if case["kind"] == "unwind":
